@@ -504,7 +504,10 @@ abbrev stepSpec := step true
 
 /-! ### Inherited list operations that the property does not list (`collections.UserList`)
 
-Modelled as they behave; `C11.xop_preserves` / `C11.xop_*_counterexample` say which keep the invariant. -/
+Modelled as they behave; `C11.xop_preserves` / `C11.xop_*_counterexample` say which keep the invariant.
+`copy()` is left out on purpose: `UserList.copy` is `self.__class__(self)`, which with the overridden
+constructor / `__getitem__` yields an object whose `data` *is* the original object (its `n_obs` then
+reports 1): not a list of components at all, so nothing the shape model could mirror (docs/C11.md). -/
 
 inductive XOp
   | setItem (i : Int) (r : Recipe)   -- `mfd[i] = c`          (`self.data[i] = c`, no check)
@@ -513,7 +516,6 @@ inductive XOp
   | add (rs : List Recipe)           -- `mfd + [c, …]`        (`self.__class__(self.data + …)`: through the constructor)
   | mul (k : Int)                    -- `mfd * k`, `k * mfd`  (through the constructor)
   | imul (k : Int)                   -- `mfd *= k`
-  | copy                             -- `mfd.copy()`
   | sort                             -- `mfd.sort()`: components are not ordered (`TypeError` as soon as two are compared)
   deriving DecidableEq, Repr
 
@@ -537,7 +539,6 @@ def stepX (cs : List Grid) : XOp → Except Err (List Grid)
     | .ok ds => mkMulti (cs ++ ds)
   | .mul k => mkMulti (repeatList cs k)
   | .imul k => .ok (repeatList cs k)
-  | .copy => .ok cs
   | .sort => if cs.length ≤ 1 then .ok cs else .error .typeError
 
 /-! ### `BasisFunctionalData` as a container (outside the property's object kinds)
